@@ -94,7 +94,8 @@ def create_linked_view(project, prefix=None, job_ids=None, path=None):
             )
         links[paths] = job.path
     if not links:  # data space contains less than two elements
-        for job in project.find_jobs():
+        # Only the selected jobs are linked: an empty selection is an empty view.
+        for job in jobs:
             links["job"] = job.path
         assert len(links) < 2
 
